@@ -339,6 +339,24 @@ impl Check for PathProp {
         if self.id == "C03" && index % 2003 == 11 {
             return ultra_fine(self.id, seed, index);
         }
+        if (matches!(self.id, "C01" | "C04" | "C05") && index % 16 == 9) || (self.id == "C03" && index % 64 == 9) {
+            // PRM harvest (see evaluate): setup, construct, solve; the queries for every
+            // milestone are added from the first run's roadmap
+            let mut rng2 = Xo::new(mix(seed, "prm-harvest", index));
+            let mut o2 = self.opts(&mut rng2, tier);
+            o2.planner = Some(PlannerKind::PRM);
+            o2.max_iters = if self.id == "C03" { 40 } else if tier == Tier::Thorough { 200 } else { 80 };
+            o2.query_budget = if self.id == "C03" { 5e4 } else { 2e5 };
+            o2.goal_sampler = Some(GoalSampler::Fixed);
+            let mut scn = gen::base(&mut rng2, self.id, seed, index, &o2);
+            let ext = scn.param("ext").unwrap_or(1.0);
+            scn.planner.connection_radius = ext * rng2.range(0.15, 0.5);
+            scn.problems[0].goal.comp = None;
+            scn.params.insert("prm_harvest".into(), 1.0);
+            scn.params.remove("fresh_objects");
+            scn.family = format!("prm_harvest/{}", scn.family);
+            return scn;
+        }
         if self.id == "C01" && index % 40 == 17 {
             // dyadic point-obstacle world (see treechecks::fixture): a scripted sample sequence
             // over a dyadic alphabet whose last state is an invalid POINT lying inside the goal
@@ -540,6 +558,39 @@ impl Check for PathProp {
 
     fn evaluate(&self, scn: &Scenario) -> Report {
         let mut rep = Report::default();
+        // PRM harvest: a first run builds the roadmap; the scenario is then extended, as a pure
+        // function of that run, by one replaced problem per milestone (goal = a tiny ball around
+        // that milestone) and run again — the same seed builds the same roadmap, and every
+        // reachable milestone ends a returned path, so nearly every milestone and every link of
+        // the breadth-first tree appears on some path.
+        let derived: Option<Scenario> = if scn.param("prm_harvest").is_some() && scn.planner.kind == PlannerKind::PRM {
+            let first = run(scn, &RunOpts::default());
+            rep.absorb(&first);
+            let snap = first.calls.iter().zip(&scn.calls).find_map(|(c, sc)| match (&c.snap, sc) {
+                (Some(Snap::Prm(rm)), CallSpec::Construct { .. }) => Some(rm.clone()),
+                _ => None,
+            });
+            snap.map(|rm| {
+                let mut d = scn.clone();
+                let ext = scn.param("ext").unwrap_or(1.0);
+                let stride = (rm.len() / 80).max(1);
+                for (k, (state, _)) in rm.iter().enumerate() {
+                    if k % stride != 0 {
+                        continue;
+                    }
+                    let mut p = scn.problems[0].clone();
+                    p.goal = GoalSpec { target: state.clone(), radius: 1e-6 * ext, sampler: GoalSampler::Fixed, sampler_seed: 0, comp: None, harness_metric: scn.problems[0].goal.harness_metric };
+                    p.space = None;
+                    d.problems.push(p);
+                    d.calls.push(CallSpec::SetProblem { problem: d.problems.len() - 1 });
+                    d.calls.push(CallSpec::Solve { timeout_ns: 1_000_000_000_000, stalls: vec![] });
+                }
+                d
+            })
+        } else {
+            None
+        };
+        let scn: &Scenario = derived.as_ref().unwrap_or(scn);
         let out = run(scn, &RunOpts::default());
         rep.absorb(&out);
         if let Some(e) = &out.build_error {
@@ -555,7 +606,7 @@ impl Check for PathProp {
         if scn.calls.iter().filter(|c| matches!(c, CallSpec::Setup { .. } | CallSpec::SetProblem { .. })).count() > 1 {
             rep.probe("resetup");
         }
-        let mut seen_segments = if scn.param("harvest").is_some() { Some(std::collections::HashSet::new()) } else { None };
+        let mut seen_segments = if scn.param("harvest").is_some() || scn.param("prm_harvest").is_some() { Some(std::collections::HashSet::new()) } else { None };
         for (k, ci) in solves.iter().enumerate() {
             let call = &out.calls[*ci];
             if let Res::Path(p) = &call.res {
